@@ -52,6 +52,7 @@ void Ctx::violation(const Str& prop, const Str& key, const Str& detail) {
 }
 
 static Ctx* g_ctx = nullptr;
+Ctx* current_ctx() { return g_ctx; }
 static Str g_out;
 static volatile sig_atomic_t g_dumping = 0;
 static double g_t0 = 0;
